@@ -689,7 +689,7 @@ fn c13_l2_anchor_insert_above() {
 }
 
 /// L2 history, Pinocchio: initialise 70, then initialise 63 BELOW it
-// @verif prop=C13,C12,C05 tier=quick timeout=1500 large
+// @verif prop=C13,C12,C05 tier=thorough timeout=1800 large
 #[kani::proof]
 #[kani::unwind(800)]
 #[kani::stub(<[u8]>::rotate_right, model_rotate_right)]
@@ -698,6 +698,35 @@ fn c13_l2_anchor_insert_above() {
 #[kani::stub(<::whirlpool::pinocchio::errors::UnifiedError as core::convert::From<::whirlpool::errors::ErrorCode>>::from, stub_unified_from_code)]
 fn c13_l2_pino_insert_below() {
     seq_pino(70, 63)
+}
+
+/// L2 history core (quick tier), Pinocchio: initialise 70, then initialise 63 BELOW it; afterwards slot 70 still holds its own update
+/// (the one assertion that a wrong shift distance of the insertion breaks). The full version with both read-backs, bitmap and tag bytes is
+/// `c13_l2_pino_insert_below` (thorough tier: it exceeds the 900 s budget of a quick check).
+// @verif prop=C13 tier=quick timeout=700 large
+#[kani::proof]
+#[kani::unwind(800)]
+#[kani::stub(<[u8]>::rotate_right, model_rotate_right)]
+#[kani::stub(<[u8]>::rotate_left, model_rotate_left)]
+#[kani::stub(alloc::fmt::format, stub_format)]
+#[kani::stub(<::whirlpool::pinocchio::errors::UnifiedError as core::convert::From<::whirlpool::errors::ErrorCode>>::from, stub_unified_from_code)]
+fn c13_l2_pino_insert_below_core() {
+    let (_, u1) = any_update(true);
+    let (_, u2) = any_update(true);
+    let key = [0u8; 32];
+    let mut b = img_new(0, &key);
+    unsafe { MODEL_USED = 88 - 70; }
+    let r1 = img_pino_mut(&mut b).update_tick(70, 1, &u1);
+    assert!(r1.is_ok());
+    unsafe { MODEL_USED = (88 + 112) - 63; }
+    let r2 = img_pino_mut(&mut b).update_tick(63, 1, &u2);
+    assert!(r2.is_ok());
+    let p = img_pino(&b);
+    let ok = matches!(p.get_tick(70, 1), Ok(t) if pino_tick_is(t, &u1));
+    kani::cover!(ok, "tick read back");
+    assert!(ok, "earlier slot keeps its contents after the insertion");
+    core::mem::forget(r1);
+    core::mem::forget(r2);
 }
 
 /// L2 history, Pinocchio: initialise 63, then initialise 70 ABOVE it
